@@ -70,7 +70,7 @@ func (c *Ctx) requestScoped(rule string, what string, floor int, isCred func(typ
 				v = x.X
 			case *ssa.Call:
 				// a protobuf getter of a response message
-				if len(x.Call.Args) == 1 && x.Call.StaticCallee() != nil && strings.HasPrefix(x.Call.StaticCallee().Name(), "Get") {
+				if f := x.Call.StaticCallee(); len(x.Call.Args) == 1 && f != nil && f.Pkg != nil && f.Pkg.Pkg.Path() == pkgPB && strings.HasPrefix(f.Name(), "Get") {
 					v = x.Call.Args[0]
 				} else {
 					return false
